@@ -65,7 +65,7 @@ def run(tier, seed):
     rep.coverage.update(blocks_built=tot["blocks"], iterator_operations=tot["ops"], cases_per_type_encoding_nullability=combos,
                         combos_covered=len(combos))
     rep.floor("type/encoding/nullability combinations exercised", len(combos), 60)
-    rep.floor("multi-block columns", tot["multi"], per * shards // 4)
+    rep.floor("multi-block columns", tot["multi"], per * shards // 10)
     rep.assumptions = ["fixed-width CHAR blocks are not reachable from SQL (column builders always pass char_width=None) and are not driven",
                        "free-form misuse of the iterator protocol (batches larger than fetch_hint) is not driven: the contract is the one RowSetIterator follows"]
     if tier == "thorough" and not os.environ.get("VERIF_OVERLAY"):
